@@ -962,11 +962,17 @@ def prepare_views(ctx, spec, lib, init, idx, base):
         ret, info = invoke(path, 1, None, runs)
         after = abstract(path, runs) if ret else None
         if ret and not any("old" in e for e in after["props"]):
+            opened = {"ok": None}
             try:
-                av = api_views(path, nix.FileMode.ReadWrite)
-                opened = {"ok": None}
+                nix.File.open(path, nix.FileMode.ReadWrite).close()
             except RuntimeError:
-                av, opened = None, {"err": "RuntimeError"}
+                opened = {"err": "RuntimeError"}
+            av = None
+            if "ok" in opened:
+                try:
+                    av = api_views(path, nix.FileMode.ReadWrite)
+                except Exception as e:
+                    av = "reading raised %s: %s" % (type(e).__name__, e)
             out["queries"].append(["openrw", lib, after])
             out["expect"].append(("open for writing after the upgrade", None, opened))
             if av is not None:
@@ -1289,7 +1295,7 @@ def check_spec(ctx, spec, lib, points="all", kill_points=(), tag="o"):
         try:
             full = api_walk(work, nix.FileMode.ReadWrite)
         except Exception as e:
-            fail("upgraded file cannot be opened for writing", "%s: %s" % (type(e).__name__, e), "opens")
+            fail("upgraded file cannot be opened for writing and read", "%s: %s" % (type(e).__name__, e), "opens")
             return fails
         if full["version"] != list(lib):
             fail("version after the upgrade", full["version"], list(lib))
@@ -1304,6 +1310,21 @@ def check_spec(ctx, spec, lib, points="all", kill_points=(), tag="o"):
             ret2 = nix.file_upgrade(work)
         if ret2 is not True or _sha_file(work) != h1:
             fail("upgrading the upgraded file changed it", {"returned": ret2}, "returns True, file untouched")
+        # "safe to repeat": the same file named twice (two spellings) in one `nixio upgrade` call -- both task lists
+        # are collected before either is processed, so the second one is stale
+        import argparse
+        shutil.copy(base, work)
+        alt = os.path.join(os.path.dirname(work), ".", os.path.basename(work))
+        try:
+            with contextlib.redirect_stdout(io.StringIO()):
+                U.main(argparse.Namespace(file=[work, alt], force=True))
+            twice = api_walk(work, nix.FileMode.ReadWrite)
+            if twice != full:
+                fail("file submitted twice to one upgrade call: result differs from a single upgrade",
+                     content_diff(exp, twice, after=True) or "differs from the single upgrade", "same content")
+        except Exception as e:
+            fail("file submitted twice to one upgrade call: the second (stale) task list is not safe to repeat",
+                 "%s: %s" % (type(e).__name__, e), "second pass changes nothing")
         # every interruption point followed by a re-run
         ks = list(range(nsteps)) if points == "all" else [k for k in points if k < nsteps]
         for k in ks:
